@@ -109,6 +109,12 @@ def handle (op : String) (j : Json) : R Json := do
     let xs ← (← arrF j "xforms").mapM parseXForm
     let exact := (boolF j "boxexact").toOption.getD true
     return obj [("set", jarr ((runAll exact xs img).map imgJson))]
+  | "c17.dispatch" =>
+    let scopes ← (← arrF j "scopes").mapM fun v => match v with
+      | Json.null => pure none
+      | v => (do let a ← arr v; let l ← a.mapM str; pure (some l) : R (Option (List String)))
+    let ts ← (← arrF j "topics").mapM str
+    return obj [("chains", jarr (ts.map fun t => jarr ((dispatch scopes t).map fun i => toJson i)))]
   | "c17.idiom" =>
     let a ← natF j "a"; let n ← natF j "n"; let d ← natF j "d"
     return obj [("idiv", jnat (idiv a n d)), ("fs", jarr [jnat (fscale false a n d), jnat (fscale true a n d)])]
